@@ -36,16 +36,20 @@ def dec(v):
   if v == "None":
     return None
   t, _, r = v.partition(":")
-  return {"i": int, "b": lambda s: s == "1", "s": str, "f": float}[t](r)
+  return {"i": int, "b": lambda s: s == "1", "s": str, "f": float, "l": lambda s: [int(x) for x in s.split()]}[t](r)
 
 
 def build(c):
   return getattr(Q, c["cls"])(**{k: dec(v) for k, v in c["opts"].items()})
 
 
+P3 = f32(np.outer([2.5, 0.02, 0.7, 0.11], [0.3, -1.0, 0.9, -0.2, 0.45, -0.6]) - 0.001)
+
+
 def probe(q):
   ys, ss = [], []
-  for x in (P1, P2):
+  # a list-valued scale_axis names two axes: both probes have rank 2 then
+  for x in ((P1, P3) if isinstance(getattr(q, "scale_axis", None), (list, tuple)) else (P1, P2)):
     for ph, u in MODES:
       K.set_learning_phase(ph)
       DRAW[0] = u
